@@ -1495,6 +1495,216 @@ theorem forward_exposes_all_histories (v : Variant) (hv : v.fixDefrag = true) (w
     rw [this]; exact hv
   exact forward_exposes_stored_history_defrag c b ids hinv hids hcv hl hok t ht
 
+/-! ### the unwind hypotheses, discharged from the state before the pass -/
+
+/-- every cell is unowned or an earlier cell with the same position and some of its owners -/
+def Shrunk (cells' cells : List Cell) : Prop :=
+  ∀ x ∈ cells', x.seqs = [] ∨ ∃ y ∈ cells, x.pos = y.pos ∧ ∀ s ∈ x.seqs, s ∈ y.seqs
+
+theorem shrunk_refl (cells : List Cell) : Shrunk cells cells :=
+  fun x hx => Or.inr ⟨x, hx, rfl, fun _ h => h⟩
+
+theorem shrunk_trans {a b c : List Cell} (h1 : Shrunk a b) (h2 : Shrunk b c) : Shrunk a c := by
+  intro x hx
+  rcases h1 x hx with h | ⟨y, hy, hp, hs⟩
+  · exact Or.inl h
+  · rcases h2 y hy with h | ⟨z, hz, hp2, hs2⟩
+    · left
+      cases hxs : x.seqs with
+      | nil => rfl
+      | cons s rest =>
+        have := hs s (by rw [hxs]; simp)
+        rw [h] at this; simp at this
+    · exact Or.inr ⟨z, hz, hp.trans hp2, fun s h => hs2 s (hs s h)⟩
+
+theorem slideSeq_shrunk (c : Cache) (w : Int) (seq : Nat) (low : Int) : Shrunk (slideSeq c w seq low).cells c.cells := by
+  unfold slideSeq
+  cases c.ranges seq with
+  | none => exact shrunk_refl _
+  | some old =>
+    intro x hx
+    obtain ⟨k, c0, hc0, hxe⟩ := mem_mapFrom hx
+    subst hxe
+    right
+    refine ⟨c0, hc0, ?_, ?_⟩
+    · unfold evictCell; split <;> rfl
+    · intro s hs
+      unfold evictCell at hs
+      split at hs
+      · exact (mem_dropSeq hs).1
+      · exact hs
+
+theorem slide_shrunk (c : Cache) (b : List Tok) : Shrunk (slide c b).cells c.cells := by
+  unfold slide
+  cases c.window with
+  | none => exact shrunk_refl _
+  | some w =>
+    simp only
+    generalize batchSeqs b = seqs
+    induction seqs generalizing c with
+    | nil => exact shrunk_refl _
+    | cons seq rest ih =>
+      simp only [List.foldl_cons]
+      cases lowest b seq with
+      | none => exact ih c
+      | some low => exact shrunk_trans (ih (slideSeq c w seq low)) (slideSeq_shrunk c w seq low)
+
+theorem defrag_shrunk (c : Cache) : Shrunk (defrag c).cells c.cells := by
+  intro x hx
+  have hm := (defragCore_moved c.v.fixDefrag c.cells c.rows).1.2 x hx
+  rcases hm with h | h
+  · exact Or.inl h
+  · exact Or.inr ⟨x, h, rfl, fun _ hs => hs⟩
+
+theorem placeBase_shrunk (c : Cache) (b : List Tok) : Shrunk (placeBase c b).cells c.cells := by
+  have h1 : Shrunk (slide { c with curBatch := b, except := [] } b).cells c.cells :=
+    slide_shrunk { c with curBatch := b, except := [] } b
+  unfold placeBase
+  split
+  · exact h1
+  · exact shrunk_trans (defrag_shrunk _) h1
+
+theorem posBound_shrunk {cells' cells : List Cell} (h : PosBound cells) (hs : Shrunk cells' cells) : PosBound cells' := by
+  intro x hx s hsx
+  rcases hs x hx with h0 | ⟨y, hy, hp, hsub⟩
+  · rw [h0] at hsx; simp at hsx
+  · rw [hp]; exact h y hy s (hsub s hsx)
+
+theorem noLater_shrunk {cells' cells : List Cell} {b : List Tok} (h : NoLater cells b) (hs : Shrunk cells' cells) :
+    NoLater cells' b := by
+  intro x hx t ht hsx
+  rcases hs x hx with h0 | ⟨y, hy, hp, hsub⟩
+  · rw [h0] at hsx; simp at hsx
+  · rw [hp]; exact h y hy t ht (hsub _ hsx)
+
+/-- **Unwinding an accepted batch** restores the abstraction placement started from; the hypotheses are
+    about the state *before* the pass: stored positions are below `MaxInt32` and the batch continues its
+    sequences (nothing at or after a batch token's position is stored for its sequence). -/
+theorem startForward_unwind_abs_pre (c : Cache) (b : List Tok) (h : Inv c)
+    (hok : (startForward c b).2 = .ok)
+    (hpb : PosBound c.cells) (hbp : ∀ t ∈ b, t.pos < maxInt32) (hnl : NoLater c.cells b) :
+    abs (unwind (startForward c b).1 b) = abs (placeBase c b) :=
+  startForward_unwind_abs c b h hok (posBound_shrunk hpb (placeBase_shrunk c b)) hbp
+    (noLater_shrunk hnl (placeBase_shrunk c b))
+
+/-! ### before the first `Put` nothing is owned -/
+
+/-- before the first `Put` no cell is owned (every accepted forward pass `Put`s) -/
+def FreshEmpty (c : Cache) : Prop := c.hasLayers = false → ∀ x ∈ c.cells, x.seqs = []
+
+theorem empty_of_shrunk {cells' cells : List Cell} (h : ∀ x ∈ cells, x.seqs = []) (hs : Shrunk cells' cells) :
+    ∀ x ∈ cells', x.seqs = [] := by
+  intro x hx
+  rcases hs x hx with h0 | ⟨y, hy, _, hsub⟩
+  · exact h0
+  · cases hxs : x.seqs with
+    | nil => rfl
+    | cons s rest =>
+      have := hsub s (by rw [hxs]; simp)
+      rw [h y hy] at this; simp at this
+
+theorem remove_cells_empty (c : Cache) (seq : Nat) (b e : Int) (h : ∀ x ∈ c.cells, x.seqs = []) :
+    ∀ x ∈ (Causal.remove c seq b e).1.cells, x.seqs = [] := by
+  have hl := length_removeCells seq b e (rmOffset b e) c.cells
+  have hsub := removeCells_sub seq b e (rmOffset b e) c.cells
+  have hcells : (Causal.remove c seq b e).1.cells = (removeCells seq b e (rmOffset b e) c.cells).1 := by
+    unfold Causal.remove
+    simp only
+    split
+    · rfl
+    · split
+      · rfl
+      · split
+        · rfl
+        · split <;> rfl
+  rw [hcells]
+  intro x hx
+  obtain ⟨j, hj, rfl⟩ := List.getElem_of_mem hx
+  have hj' : j < c.cells.length := by rw [← hl]; exact hj
+  cases hxs : ((removeCells seq b e (rmOffset b e) c.cells).1[j]).seqs with
+  | nil => rfl
+  | cons s rest =>
+    have := hsub j hj' s (by rw [hxs]; simp)
+    rw [h _ (List.getElem_mem hj')] at this; simp at this
+
+theorem startForward_hasLayers (c : Cache) (b : List Tok) : (startForward c b).1.hasLayers = c.hasLayers := by
+  have hs := (slide_v { c with curBatch := b, except := [] } b).2.1
+  unfold startForward
+  simp only
+  split
+  · simp only [finishForward]
+    rw [(place_cells _ _ _).2.2.2.1]; exact hs
+  · split
+    · exact hs
+    · split
+      · simp only [finishForward]
+        rw [(place_cells _ _ _).2.2.2.1]; exact hs
+      · exact hs
+
+/-- a pass that does not accept its batch only drops owners and moves cells -/
+theorem startForward_shrunk_of_not_ok (c : Cache) (b : List Tok) (h : (startForward c b).2 ≠ .ok) :
+    Shrunk (startForward c b).1.cells c.cells := by
+  have h1 : Shrunk (slide { c with curBatch := b, except := [] } b).cells c.cells :=
+    slide_shrunk { c with curBatch := b, except := [] } b
+  unfold startForward at h ⊢
+  simp only at h ⊢
+  split
+  · rename_i hf; simp [hf] at h
+  · split
+    · exact h1
+    · split
+      · rename_i x0 hf0 hp x1 loc hf2; simp [hf0, hp, hf2] at h
+      · exact shrunk_trans (defrag_shrunk _) h1
+
+theorem stepH_freshEmpty (c : Cache) (op : HOp) (h : FreshEmpty c) : FreshEmpty (stepH c op) := by
+  cases op with
+  | fwd b ids =>
+    simp only [stepH]
+    split
+    · intro hl; simp [put] at hl
+    · rename_i hnok
+      intro hl x hx
+      rw [startForward_hasLayers] at hl
+      exact empty_of_shrunk (h hl) (startForward_shrunk_of_not_ok c b hnok) x hx
+  | cp src dst len =>
+    intro hl x hx
+    have hl' : c.hasLayers = false := hl
+    simp only [stepH, Causal.copyPrefix, List.mem_map] at hx
+    obtain ⟨y, hy, rfl⟩ := hx
+    simp [cpCell, cpSeqs, h hl' y hy]
+  | rm seq b e =>
+    intro hl x hx
+    have hf := removeV_fields c seq b e
+    have hl' : c.hasLayers = false := by rw [← hf.2.2.1]; exact hl
+    simp only [stepH] at hx
+    rcases removeV_cases c seq b e with h1 | ⟨h1, _, _⟩
+    · rw [h1] at hx; exact remove_cells_empty c seq b e (h hl') x hx
+    · rw [h1] at hx; exact h hl' x hx
+  | sc ex =>
+    simp only [stepH, setCausal]
+    split
+    · exact h
+    · exact h
+  | rsv b => exact h
+
+theorem freshEmpty_run (c : Cache) (ops : List HOp) (h : FreshEmpty c) : FreshEmpty (ops.foldl stepH c) := by
+  induction ops generalizing c with
+  | nil => exact h
+  | cons op rest ih => exact ih _ (stepH_freshEmpty c op h)
+
+theorem freshEmpty_init (v : Variant) (w : Option Int) (maxSeq capacity maxBatch cachePad batchPad : Nat) (hs : Bool) :
+    FreshEmpty (Causal.init v w maxSeq capacity maxBatch cachePad batchPad hs) := by
+  intro _ x hx
+  simp only [Causal.init] at hx
+  rw [List.eq_of_mem_replicate hx]; rfl
+
+theorem abs_nil_of_empty (c : Cache) (h : ∀ x ∈ c.cells, x.seqs = []) : abs c = [] := by
+  unfold abs
+  apply filterMap_all_none
+  intro p hp
+  have := h p.1 (List.of_mem_zip hp).1
+  simp [entryOf, this]
+
 /-! ### refinement to the location-free specification -/
 
 /-- the location-free meaning of one successful cache operation (`none`: the spec refuses a `Remove` that
@@ -1506,11 +1716,10 @@ def specStep (W : Option Int) (s : Spec) : HOp → Option Spec
   | .sc _ => some s
   | .rsv _ => some s
 
-/-- the operation is accepted by the cache (a forward pass also needs one datum per token; a `Remove` is
-    only considered once layer tensors exist — before the first `Put` there is no data to re-shift) -/
+/-- the operation is accepted by the cache (a forward pass also needs one datum per token) -/
 def Succeeds (c : Cache) : HOp → Prop
   | .fwd b ids => (startForward c b).2 = .ok ∧ ids.length = b.length
-  | .rm seq b e => (removeV c seq b e).2 = .ok ∧ c.hasLayers = true
+  | .rm seq b e => (removeV c seq b e).2 = .ok
   | _ => True
 
 /-- **Refinement, one step**: every operation the cache accepts changes the abstract state exactly as the
@@ -1519,7 +1728,7 @@ def Succeeds (c : Cache) : HOp → Prop
     data of exactly the moved entries); SetCausal and reserve passes change nothing.  Placement, cell reuse,
     range bookkeeping and defragmentation are invisible. -/
 theorem refines_step (c : Cache) (op : HOp) (h : Inv c) (hfix : c.v.fixDefrag = true) (hr : RowsFresh c)
-    (hs : Succeeds c op) :
+    (hfe : FreshEmpty c) (hs : Succeeds c op) :
     ∃ s', specStep c.window (abs c) op = some s' ∧ (abs (stepH c op)).Perm s' := by
   cases op with
   | fwd b ids =>
@@ -1537,9 +1746,17 @@ theorem refines_step (c : Cache) (op : HOp) (h : Inv c) (hfix : c.v.fixDefrag = 
     exact hperm
   | cp src dst len => exact ⟨_, rfl, by simp only [stepH]; rw [copyPrefix_abs]⟩
   | rm seq b e =>
-    have he := removeV_ok_eq c seq b e hs.1
-    have := remove_abs c seq b e h.len h.size hs.2 (by rw [← he]; exact hs.1)
-    exact ⟨_, this, by simp only [stepH]; rw [he]⟩
+    have he := removeV_ok_eq c seq b e hs
+    cases hl : c.hasLayers with
+    | true =>
+      have := remove_abs c seq b e h.len h.size hl (by rw [← he]; exact hs)
+      exact ⟨_, this, by simp only [stepH]; rw [he]⟩
+    | false =>
+      -- before the first `Put` nothing is owned: the removal is vacuous on both sides
+      have hemp := hfe hl
+      have habs : abs c = [] := abs_nil_of_empty c hemp
+      have habs' : abs (Causal.remove c seq b e).1 = [] := abs_nil_of_empty _ (remove_cells_empty c seq b e hemp)
+      exact ⟨[], by rw [habs]; simp [specStep, KV.remove], by simp only [stepH]; rw [he, habs']⟩
   | sc ex => exact ⟨_, rfl, by simp only [stepH]; rw [setCausal_abs]⟩
   | rsv b => exact ⟨_, rfl, List.Perm.refl _⟩
 
@@ -1648,17 +1865,18 @@ def AllSucceed : Cache → List HOp → Prop
     history of accepted operations the abstract state is (a permutation of) what the location-free
     specification computes from `s` — and the specification accepts every step. -/
 theorem refines_run (c : Cache) (ops : List HOp) (s : Spec) (hp : (abs c).Perm s) (h : Inv c)
-    (hfix : c.v.fixDefrag = true) (hr : RowsFresh c) (hs : AllSucceed c ops) :
+    (hfix : c.v.fixDefrag = true) (hr : RowsFresh c) (hfe : FreshEmpty c) (hs : AllSucceed c ops) :
     ∃ s', runSpec c.window s ops = some s' ∧ (abs (ops.foldl stepH c)).Perm s' := by
   induction ops generalizing c s with
   | nil => exact ⟨s, rfl, hp⟩
   | cons op rest ih =>
     obtain ⟨hs1, hs2⟩ := hs
-    obtain ⟨s1, he1, hp1⟩ := refines_step c op h hfix hr hs1
+    obtain ⟨s1, he1, hp1⟩ := refines_step c op h hfix hr hfe hs1
     obtain ⟨s1', he1', hp1'⟩ := specStep_perm c.window (abs c) s op hp s1 he1
     have hinv : Inv (stepH c op) := inv_run c [op] h
     have hv : (stepH c op).v.fixDefrag = true := by rw [stepH_v]; exact hfix
-    obtain ⟨s2, he2, hp2⟩ := ih (stepH c op) s1' (hp1.trans hp1') hinv hv (stepH_rowsFresh c op hr) hs2
+    obtain ⟨s2, he2, hp2⟩ := ih (stepH c op) s1' (hp1.trans hp1') hinv hv (stepH_rowsFresh c op hr)
+      (stepH_freshEmpty c op hfe) hs2
     rw [stepH_window] at he2
     exact ⟨s2, by simp only [runSpec, he1', Option.bind_some]; exact he2, hp2⟩
 
@@ -1684,7 +1902,8 @@ theorem refines_all_histories (v : Variant) (hv : v.fixDefrag = true) (w : Optio
       (abs (ops.foldl stepH (Causal.init v w maxSeq capacity maxBatch cachePad batchPad hs))).Perm s' := by
   have := refines_run (Causal.init v w maxSeq capacity maxBatch cachePad batchPad hs) ops []
     (by rw [abs_init]) (inv_init v w maxSeq capacity maxBatch cachePad batchPad hs hsz) hv
-    (rowsFresh_init v w maxSeq capacity maxBatch cachePad batchPad hs) hok
+    (rowsFresh_init v w maxSeq capacity maxBatch cachePad batchPad hs)
+    (freshEmpty_init v w maxSeq capacity maxBatch cachePad batchPad hs) hok
   exact this
 
 instance (c : Cache) (op : HOp) : Decidable (Succeeds c op) := by
@@ -1696,15 +1915,56 @@ instance decAllSucceed : (c : Cache) → (ops : List HOp) → Decidable (AllSucc
     have := decAllSucceed (stepH c op) ops
     by unfold AllSucceed; infer_instance
 
-/-- non-vacuity of the refinement theorems: a history with a shifting middle removal, a forward pass that
-    is only accepted after defragmenting, a fork, SetCausal and a reserve pass is accepted step by step, and
-    the specification's run gives the 5 entries the cache then holds -/
-example :
+/-- non-vacuity of the refinement theorems (audited): a history with a shifting middle removal, a forward
+    pass that is only accepted after defragmenting, a fork, SetCausal and a reserve pass is accepted step by
+    step, and the specification's run gives the 5 entries the cache then holds -/
+theorem refines_nonvacuous :
     let c0 := Causal.init { fixDefrag := true } none 1 5 5 1 1 true
     let ops := [HOp.fwd [⟨0, 0⟩, ⟨0, 1⟩, ⟨0, 2⟩, ⟨0, 3⟩, ⟨0, 4⟩] [1, 2, 3, 4, 5], .rm 0 0 2, .rm 0 2 maxInt32,
       .fwd [⟨0, 2⟩, ⟨0, 3⟩, ⟨0, 4⟩] [6, 7, 8], .sc [1], .cp 0 1 2, .rsv [⟨1, 2⟩]]
     AllSucceed c0 ops ∧ ((runSpec none [] ops).map List.length) = some 5 ∧
     (abs (ops.foldl stepH c0)).length = 5 := by decide
+
+theorem run_window (c : Cache) (ops : List HOp) : (ops.foldl stepH c).window = c.window := by
+  induction ops generalizing c with
+  | nil => rfl
+  | cons op rest ih => simp only [List.foldl_cons]; rw [ih, stepH_window]
+
+/-- **THE PROPERTY, end to end.**  Start from any configuration (capacity, batch size, paddings, window;
+    tree with the repaired defrag coalescing), run any history of accepted operations — stores with any
+    placement and cell reuse, window evictions, defragmentations, prefix copies, removals with position
+    shift, SetCausal, reserve passes — and let `s'` be what the location-free specification, which has no
+    cache locations at all, computes from the empty state for that history.  Then for every batch the cache
+    accepts next, every token of it is shown (position, data identity, applied shift; as a multiset) exactly
+    the entries of `s'` plus the batch that belong to its sequence, lie at positions not after its own and
+    inside the window: nothing of another sequence, of a removed range or of a later position, nothing
+    missing, each with the data stored for it.
+    (Guards: `AllSucceed` — a refused `Remove` is outside: pinned it leaves a half-done removal, F28; for
+    windowed caches the specification contains the eviction, i.e. F15 is part of the spec.) -/
+theorem history_exposes_spec (v : Variant) (hv : v.fixDefrag = true) (w : Option Int)
+    (maxSeq capacity maxBatch cachePad batchPad : Nat) (hs : Bool) (ops : List HOp) (b : List Tok) (ids : List Nat)
+    (hsz : (Causal.init v w maxSeq capacity maxBatch cachePad batchPad hs).cells.length ≤ maxInt)
+    (hids : ids.length = b.length)
+    (hall : AllSucceed (Causal.init v w maxSeq capacity maxBatch cachePad batchPad hs) ops) :
+    let c := ops.foldl stepH (Causal.init v w maxSeq capacity maxBatch cachePad batchPad hs)
+    (startForward c b).2 = .ok →
+    ∃ s', runSpec w [] ops = some s' ∧
+      ∀ t ∈ b, ((exposedEntries (put (startForward c b).1 ids) t).map key).Perm
+        ((visible w (KV.store s' (b.zip ids)) t.seq t.pos).map key) := by
+  intro c hok
+  obtain ⟨s', hrun, hperm⟩ := refines_all_histories v hv w maxSeq capacity maxBatch cachePad batchPad hs ops hsz hall
+  refine ⟨s', hrun, ?_⟩
+  intro t ht
+  have h1 := forward_exposes_all_histories v hv w maxSeq capacity maxBatch cachePad batchPad hs ops b ids hsz hids hok t ht
+  have hw : c.window = w := (run_window _ ops).trans rfl
+  refine h1.trans ?_
+  rw [hw]
+  have hst : (KV.store (abs c) (b.zip ids)).Perm (KV.store s' (b.zip ids)) := by
+    simp only [KV.store]; exact List.Perm.append_right _ hperm
+  exact ((hst.filter _).map key)
+
+theorem specStep_none_fwd (s : Spec) (b : List Tok) (ids : List Nat) :
+    specStep none s (.fwd b ids) = some (KV.store s (b.zip ids)) := rfl
 
 /-! ### a full cache is reported as an error only when it is full -/
 
@@ -1740,97 +2000,7 @@ theorem full_only_without_room (c : Cache) (b : List Tok) (h : Inv c) (hfix : c.
         rw [defragCore_freeCount _ _ h1.len] at this
         exact this
 
-/-! ### the unwind hypotheses, discharged from the state before the pass -/
-
-/-- every cell is unowned or an earlier cell with the same position and some of its owners -/
-def Shrunk (cells' cells : List Cell) : Prop :=
-  ∀ x ∈ cells', x.seqs = [] ∨ ∃ y ∈ cells, x.pos = y.pos ∧ ∀ s ∈ x.seqs, s ∈ y.seqs
-
-theorem shrunk_refl (cells : List Cell) : Shrunk cells cells :=
-  fun x hx => Or.inr ⟨x, hx, rfl, fun _ h => h⟩
-
-theorem shrunk_trans {a b c : List Cell} (h1 : Shrunk a b) (h2 : Shrunk b c) : Shrunk a c := by
-  intro x hx
-  rcases h1 x hx with h | ⟨y, hy, hp, hs⟩
-  · exact Or.inl h
-  · rcases h2 y hy with h | ⟨z, hz, hp2, hs2⟩
-    · left
-      cases hxs : x.seqs with
-      | nil => rfl
-      | cons s rest =>
-        have := hs s (by rw [hxs]; simp)
-        rw [h] at this; simp at this
-    · exact Or.inr ⟨z, hz, hp.trans hp2, fun s h => hs2 s (hs s h)⟩
-
-theorem slideSeq_shrunk (c : Cache) (w : Int) (seq : Nat) (low : Int) : Shrunk (slideSeq c w seq low).cells c.cells := by
-  unfold slideSeq
-  cases c.ranges seq with
-  | none => exact shrunk_refl _
-  | some old =>
-    intro x hx
-    obtain ⟨k, c0, hc0, hxe⟩ := mem_mapFrom hx
-    subst hxe
-    right
-    refine ⟨c0, hc0, ?_, ?_⟩
-    · unfold evictCell; split <;> rfl
-    · intro s hs
-      unfold evictCell at hs
-      split at hs
-      · exact (mem_dropSeq hs).1
-      · exact hs
-
-theorem slide_shrunk (c : Cache) (b : List Tok) : Shrunk (slide c b).cells c.cells := by
-  unfold slide
-  cases c.window with
-  | none => exact shrunk_refl _
-  | some w =>
-    simp only
-    generalize batchSeqs b = seqs
-    induction seqs generalizing c with
-    | nil => exact shrunk_refl _
-    | cons seq rest ih =>
-      simp only [List.foldl_cons]
-      cases lowest b seq with
-      | none => exact ih c
-      | some low => exact shrunk_trans (ih (slideSeq c w seq low)) (slideSeq_shrunk c w seq low)
-
-theorem defrag_shrunk (c : Cache) : Shrunk (defrag c).cells c.cells := by
-  intro x hx
-  have hm := (defragCore_moved c.v.fixDefrag c.cells c.rows).1.2 x hx
-  rcases hm with h | h
-  · exact Or.inl h
-  · exact Or.inr ⟨x, h, rfl, fun _ hs => hs⟩
-
-theorem placeBase_shrunk (c : Cache) (b : List Tok) : Shrunk (placeBase c b).cells c.cells := by
-  have h1 : Shrunk (slide { c with curBatch := b, except := [] } b).cells c.cells :=
-    slide_shrunk { c with curBatch := b, except := [] } b
-  unfold placeBase
-  split
-  · exact h1
-  · exact shrunk_trans (defrag_shrunk _) h1
-
-theorem posBound_shrunk {cells' cells : List Cell} (h : PosBound cells) (hs : Shrunk cells' cells) : PosBound cells' := by
-  intro x hx s hsx
-  rcases hs x hx with h0 | ⟨y, hy, hp, hsub⟩
-  · rw [h0] at hsx; simp at hsx
-  · rw [hp]; exact h y hy s (hsub s hsx)
-
-theorem noLater_shrunk {cells' cells : List Cell} {b : List Tok} (h : NoLater cells b) (hs : Shrunk cells' cells) :
-    NoLater cells' b := by
-  intro x hx t ht hsx
-  rcases hs x hx with h0 | ⟨y, hy, hp, hsub⟩
-  · rw [h0] at hsx; simp at hsx
-  · rw [hp]; exact h y hy t ht (hsub _ hsx)
-
-/-- **Unwinding an accepted batch** restores the abstraction placement started from; the hypotheses are
-    about the state *before* the pass: stored positions are below `MaxInt32` and the batch continues its
-    sequences (nothing at or after a batch token's position is stored for its sequence). -/
-theorem startForward_unwind_abs_pre (c : Cache) (b : List Tok) (h : Inv c)
-    (hok : (startForward c b).2 = .ok)
-    (hpb : PosBound c.cells) (hbp : ∀ t ∈ b, t.pos < maxInt32) (hnl : NoLater c.cells b) :
-    abs (unwind (startForward c b).1 b) = abs (placeBase c b) :=
-  startForward_unwind_abs c b h hok (posBound_shrunk hpb (placeBase_shrunk c b)) hbp
-    (noLater_shrunk hnl (placeBase_shrunk c b))
+/-! ### wrapped caches at the level of the specification -/
 
 /-- what a pass that does not store its batch leaves of the abstract state: the window eviction for the
     batch's sequences, nothing else -/
@@ -1868,13 +2038,13 @@ theorem wrapper_rejected_batch_spec (cs : List Cache) (b : List Tok) (cs' : List
     each cache's abstract state afterwards is its own window eviction + one fresh entry per token. -/
 theorem wrapper_forward_refines (cs : List Cache) (b : List Tok) (ids : List Nat) (cs' : List Cache)
     (hinv : ∀ c ∈ cs, Inv c) (hfix : ∀ c ∈ cs, c.v.fixDefrag = true) (hfresh : ∀ c ∈ cs, RowsFresh c)
-    (hids : ids.length = b.length) (h : wStart cs b = (cs', .ok)) :
+    (hfe : ∀ c ∈ cs, FreshEmpty c) (hids : ids.length = b.length) (h : wStart cs b = (cs', .ok)) :
     wPut cs' ids = cs.map (fun c => put (startForward c b).1 ids) ∧
     ∀ c ∈ cs, (abs (put (startForward c b).1 ids)).Perm (KV.store (evictedSpec c b) (b.zip ids)) := by
   obtain ⟨e1, e2⟩ := wStart_ok cs b cs' h
   refine ⟨by rw [e1]; simp [wPut, List.map_map, Function.comp_def], ?_⟩
   intro c hc
-  obtain ⟨s', hs', hp⟩ := refines_step c (.fwd b ids) (hinv c hc) (hfix c hc) (hfresh c hc) ⟨e2 c hc, hids⟩
+  obtain ⟨s', hs', hp⟩ := refines_step c (.fwd b ids) (hinv c hc) (hfix c hc) (hfresh c hc) (hfe c hc) ⟨e2 c hc, hids⟩
   simp only [specStep, Option.some.injEq] at hs'
   subst hs'
   simp only [stepH, e2 c hc, if_true] at hp
